@@ -364,3 +364,398 @@ def replay_make_unique(rp):
         probs += wellformed.c01_problems(wellformed.closure(list(objs.values()) + [new]))
         probs += wellformed.c02_problems(wellformed.closure(list(objs.values()) + [new]))
         return bool(probs), "_make_instance_unique: %s" % sorted(set(probs))[:4]
+
+
+# ---- C08: the whole uniquify() driver on sharing patterns decided by the solver --------------------------------
+UNIQ_FIXTURES = {
+    # TOP(def0) holds i0, i1; OUT(def3), not under the top, holds i2; i3 is the top instance.
+    # A(def1) is hierarchical (it owns a net), B(def2) is a leaf.  i0, i1, i2 each instantiate A or B: the solver
+    # picks the sharing pattern (shared below the top, shared with the outside, not shared, leaves).
+    "flat": dict(
+        live=dict(Netlist=1, Library=1, Definition=4, Port=0, Cable=1, Wire=0, Instance=4, InnerPin=0, OuterPin=0),
+        fresh=dict(Definition=2, Cable=2), K=2, defcap=6,
+        shape={("Netlist", 0, "_libraries"): [0], ("Library", 0, "_definitions"): [0, 1, 2, 3],
+               ("Definition", 0, "_children"): [0, 1], ("Definition", 3, "_children"): [2],
+               ("Definition", 1, "_cables"): [0]},
+        top=3, refs={0: (1, 2), 1: (1, 2), 2: (1, 2), 3: (0,)}),
+    # one level deeper: A(def1) holds i4, which instantiates the hierarchical C(def4, owns a net) or the leaf B
+    "nested": dict(
+        live=dict(Netlist=1, Library=1, Definition=5, Port=0, Cable=2, Wire=0, Instance=5, InnerPin=0, OuterPin=0),
+        fresh=dict(Definition=4, Cable=4, Instance=2), K=2, defcap=9,
+        shape={("Netlist", 0, "_libraries"): [0], ("Library", 0, "_definitions"): [0, 1, 2, 3, 4],
+               ("Definition", 0, "_children"): [0, 1], ("Definition", 3, "_children"): [2],
+               ("Definition", 1, "_cables"): [0], ("Definition", 1, "_children"): [4], ("Definition", 4, "_cables"): [1]},
+        top=3, refs={0: (1, 2, 4), 1: (1, 2, 4), 2: (1, 2, 4), 3: (0,), 4: (2, 4)}),
+}
+
+
+def uniquify_driver_job(tier, fixture="flat", timeout_ms=300000, cube=None, goals_only=None):
+    """uniquify(netlist) -- the real breadth-first driver with the real _is_unique, _make_instance_unique and
+    Definition.clone -- on a containment-concrete netlist whose instance->definition references are symbolic."""
+    import spydrnet.uniquify as uq
+    t0 = time.time()
+    M.SOLVER_CORE = "euf"          # see mutators.check: the default core does not decide these queries in minutes
+    name = "C08/uniquify{fixture=%s}" % fixture
+    fx = UNIQ_FIXTURES[fixture]
+    u = Universe(fx["live"], fx["fresh"], fx["K"], list_caps={("Library", "_definitions"): fx["defcap"]},
+                 keys=(".NAME",), atoms=("a", "b", "c", "d", "e"))
+    pre = Heap.symbolic(u).apply_shape(fx["shape"])
+    for i, d in (cube or {}).items():          # cube split: some references fixed by the job, the rest symbolic
+        pre.sc[("Instance", "_reference")][int(i)] = u.gid("Definition", d)
+    if cube:
+        name += "{%s}" % ",".join("i%s->def%d" % kv for kv in sorted(cube.items()))
+    heap = pre.copy()
+    ctx = Ctx(heap, M.REAL)
+    M.listeners_none(ctx)
+    ctx.loop_bound = 8
+    fr = Frame(None, True, {})
+    nI, nD = u.live["Instance"], u.live["Definition"]
+    A = pre.type_constraints() + spec.inv_all(pre)
+    for i, ds in fx["refs"].items():
+        A.append(OR(*[EQ(pre.sc[("Instance", "_reference")][i], u.gid("Definition", d)) for d in ds]))
+    A.append(EQ(pre.sc[("Netlist", "_top_instance")][0], u.gid("Instance", fx["top"])))
+    # definitions carry distinct names (the naming plug-in's guarantee; C10)
+    kn = 0
+    for d in range(nD):
+        A.append(pre.data["Definition"][d][kn][0])
+        for e in range(d):
+            A.append(NE(pre.data["Definition"][d][kn][1], pre.data["Definition"][e][kn][1]))
+    A = [B(a) for a in A if a is not True]
+    netl = Ref(u.gid("Netlist", 0), ("Netlist",))
+    ctx.globals_over[("spydrnet.uniquify", "MOD_NAME_UID")] = 0
+    try:
+        call_function(ctx, fr, uq.uniquify, [netl])
+        mid = heap.copy()
+        exc1, bound1 = ctx.exc, ctx.bound
+        call_function(ctx, fr, uq.uniquify, [netl])
+    except Unsupported as e:
+        return [result(name, INCONCLUSIVE, "E1/symheap", detail="Unsupported: %s" % e, wall_s=time.time() - t0)]
+    post = mid
+    ND = u.n["Definition"]
+    NI = u.n["Instance"]
+
+    def at_def(t, f):
+        return ite_chain(t, u.ids("Definition"), [f(d) for d in range(ND)], False)
+
+    def exists_i(h, i):
+        return spec.exists(h, "Instance", i)
+    nonleaf = lambda h, d: OR(GT(h.ls[("Definition", "_children")][d][0], 0), GT(h.ls[("Definition", "_cables")][d][0], 0))
+    # reachable from the top: children of TOP, and children of the definitions those instantiate (depth <= 2)
+    def children(h, d):
+        ln, el = h.ls[("Definition", "_children")][d]
+        return [(LT(k, ln), el[k]) for k in range(len(el))]
+    reach = []            # [(cond, instance id term)]
+    lvl1 = children(post, 0)
+    reach += lvl1
+    for c1, it in lvl1:
+        rt = ite_chain(it, u.ids("Instance"), post.sc[("Instance", "_reference")], NONE_ID)
+        for d in range(ND):
+            for c2, it2 in children(post, d):
+                reach.append((AND(c1, EQ(rt, u.gid("Definition", d)), c2), it2))
+    only = []
+    for cond, it in reach:
+        rt = ite_chain(it, u.ids("Instance"), post.sc[("Instance", "_reference")], NONE_ID)
+        for d in range(ND):
+            isd = AND(cond, EQ(rt, u.gid("Definition", d)), nonleaf(post, d))
+            if isd is False:
+                continue
+            for j in range(NI):
+                only.append(IMPLIES(AND(isd, exists_i(post, j), NE(it, u.gid("Instance", j))),
+                                    NE(post.sc[("Instance", "_reference")][j], u.gid("Definition", d))))
+    goals = {"every-reachable-hierarchical-instance-is-the-only-one-of-its-definition": only}
+    # the elaborated design: same tree, same leaf types.  sig(h, instance) = leaf definition, or (cables, children sigs)
+    def same_design(i_pre, it_post, depth):
+        """instance slot i_pre of the pre-state vs the instance term it_post of the post-state"""
+        cs = []
+        r0 = pre.sc[("Instance", "_reference")][i_pre]
+        r1 = ite_chain(it_post, u.ids("Instance"), post.sc[("Instance", "_reference")], NONE_ID)
+        for d0 in range(nD):
+            is0 = EQ(r0, u.gid("Definition", d0))
+            if is0 is False:
+                continue
+            leaf0 = NOT(nonleaf(pre, d0))
+            cs.append(IMPLIES(AND(is0, leaf0), EQ(r1, r0)))            # leaf occurrences keep their cell type
+            for d1 in range(ND):
+                is1 = AND(is0, NOT(leaf0), EQ(r1, u.gid("Definition", d1)))
+                if is1 is False:
+                    continue
+                l0, e0 = pre.ls[("Definition", "_children")][d0]
+                l1, e1 = post.ls[("Definition", "_children")][d1]
+                cs.append(IMPLIES(is1, AND(EQ(l0, l1), EQ(pre.ls[("Definition", "_cables")][d0][0],
+                                                           post.ls[("Definition", "_cables")][d1][0]))))
+                if depth > 0:
+                    for k in range(min(len(e0), len(e1))):
+                        for ci in range(nI):
+                            hit = AND(is1, LT(k, l0), EQ(e0[k], u.gid("Instance", ci)))
+                            if hit is False:
+                                continue
+                            cs += [IMPLIES(hit, c) for c in same_design(ci, e1[k], depth - 1)]
+            cs.append(IMPLIES(AND(is0, NOT(leaf0)), OR(*[EQ(r1, u.gid("Definition", d1)) for d1 in range(ND)])))
+        return cs
+    tl, tel = post.ls[("Definition", "_children")][0]
+    design = [EQ(tl, 2), EQ(tel[0], u.gid("Instance", 0)), EQ(tel[1], u.gid("Instance", 1))]
+    for i in (0, 1):
+        design += same_design(i, u.gid("Instance", i), 1)
+    goals["elaborated-tree-and-leaf-types-unchanged"] = design
+    # outside the top hierarchy nothing moves; the original definitions keep their content
+    outside = [EQ(post.sc[("Instance", "_reference")][2], pre.sc[("Instance", "_reference")][2]),
+               EQ(post.sc[("Instance", "_reference")][fx["top"]], u.gid("Definition", 0)),
+               EQ(post.sc[("Netlist", "_top_instance")][0], u.gid("Instance", fx["top"]))]
+    for g, cs in spec.frame_groups(pre, post).items():
+        if g in ("frame:Definition._children", "frame:Definition._cables", "frame:Definition._ports", "frame:Instance._parent",
+                 "frame:Cable._definition", "frame:Definition._library", "frame:Netlist._libraries"):
+            outside += cs
+    goals["originals-and-the-outside-untouched"] = outside
+    # new definitions live in the original's library under fresh names
+    fresh = []
+    dl, del_ = post.ls[("Library", "_definitions")][0]
+    for d in range(nD, ND):
+        ex = spec.exists(post, "Definition", d)
+        fresh.append(IMPLIES(ex, AND(EQ(post.sc[("Definition", "_library")][d], u.gid("Library", 0)),
+                                     post.data["Definition"][d][kn][0])))
+        for e in range(d):
+            fresh.append(IMPLIES(AND(ex, spec.exists(post, "Definition", e)),
+                                 NE(post.data["Definition"][d][kn][1], post.data["Definition"][e][kn][1])))
+    goals["new-definitions-in-the-same-library-with-fresh-names"] = fresh
+    goals["well-formed-afterwards"] = [c for g, cs in spec.inv_groups(post).items() for c in cs]
+    again = []
+    for g, cs in spec.frame_groups(mid, heap).items():
+        again += cs
+    for d in range(ND):
+        again.append(EQ(spec.exists(mid, "Definition", d), spec.exists(heap, "Definition", d)))
+    goals["running-it-again-changes-nothing"] = again
+    funcs = sorted(fn_ident(f) for f in ctx.funcs_seen)
+    bounds = dict(u.describe(), fixture=fixture, solver="z3 %s, tactic.default_tactic=smt sat.euf=true" % z3.get_version_string(),
+                  shape={"%s/%d/%s" % k: v for k, v in fx["shape"].items()},
+                  references={str(k): list(v) for k, v in fx["refs"].items()})
+    ok1 = [B(NOT(bound1)), B(NOT(exc1))]
+    ok2 = [B(NOT(ctx.bound)), B(NOT(ctx.exc))]
+    tw = {"pre_sat": M.check(A, True, 60000)[0], "returns": M.check(A, AND(NOT(exc1), NOT(bound1)), 120000)[0],
+          "something-is-shared": M.check(A + ok1, spec.exists(post, "Definition", nD), 120000)[0]}
+    if any(v != "sat" for v in tw.values()):
+        return [result(name, VACUOUS, "E1/symheap", twins=tw, bounds=bounds, detail="reachability twin failed: %s %s" % (
+            tw, sorted(set(ctx.bound_why))[:3]))]
+    out = []
+    for g, cs in list(goals.items()) + [("never-raises", None), ("bound", "bound")]:
+        oname = name + "/" + g
+        if goals_only and not any(o in g for o in goals_only):
+            continue
+        if cs == "bound":
+            st, dt, mdl = M.check(A, ctx.bound, timeout_ms)
+            out.append(result(name + "/bound-reached", DISCHARGED if st in ("sat", "unsat") else INCONCLUSIVE, "E1/symheap",
+                              queries=1, solver_s=dt, bounds=bounds,
+                              detail="capacity/unwinding bound reachable: %s %s" % (st, sorted(set(ctx.bound_why))[:3])))
+            continue
+        if cs is None:
+            st, dt, mdl = M.check(A + [B(NOT(ctx.bound))], ctx.exc, timeout_ms)
+        else:
+            st, dt, mdl = M.check(A + (ok2 if g.startswith("running") else ok1), NOT(AND(*cs)), timeout_ms)
+        if st == "unsat":
+            out.append(result(oname, DISCHARGED, "E1/symheap", queries=1, solver_s=dt, twins=tw, bounds=bounds,
+                              functions=funcs, detail="unsat", wall_s=time.time() - t0, paths=1))
+        elif st != "sat":
+            out.append(result(oname, INCONCLUSIVE, "E1/symheap", detail="solver: %s" % st, bounds=bounds))
+        else:
+            state = replay.heap_to_state(pre, mdl)
+            rp = {"engine": "E1", "property": "C08", "obligation": oname, "kind": "uniquify", "state": state,
+                  "netlist": u.gid("Netlist", 0)}
+            try:
+                viol, txt = replay_uniquify(rp)
+            except Exception:
+                viol, txt = False, "replay crashed: " + traceback.format_exc()[-400:]
+            out.append(result(oname, VIOLATED if viol else ERROR, "E1/symheap", queries=1, solver_s=dt, twins=tw,
+                              bounds=bounds, functions=funcs, replay=rp if viol else None,
+                              detail=txt if viol else "counterexample did not reproduce: " + txt,
+                              wall_s=time.time() - t0))
+    return out
+
+
+def replay_uniquify(rp):
+    """real uniquify on the real netlist built from the counterexample; concrete oracle for the C08 statement"""
+    from spydrnet.uniquify import uniquify
+    from vf.e1 import wellformed
+    with replay.listener_config("none"):
+        objs = replay.build(rp["state"])
+        built, _ = replay.abstract(objs)
+        diffs = replay.states_equal(rp["state"], built)
+        if diffs:
+            return False, "built state differs from the model: " + "; ".join(diffs[:3])
+        netlist = objs[rp["netlist"]]
+        top = netlist.top_instance
+
+        def elab(defn, seen=()):
+            if defn.is_leaf():
+                return ("leaf", id(defn))
+            return ("hier", len(defn.cables), tuple(elab(c.reference) for c in defn.children))
+
+        def reach(defn, acc):
+            for c in defn.children:
+                acc.append(c)
+                reach(c.reference, acc)
+            return acc
+        before = elab(top.reference)
+        outside = {id(o): o.reference for o in objs.values() if type(o).__name__ == "Instance"
+                   and o not in reach(top.reference, [])}
+        libs_before = {id(d): d.library for l in netlist.libraries for d in l.definitions}
+        try:
+            uniquify(netlist)
+        except Exception as e:
+            return True, "uniquify raised %s: %s" % (type(e).__name__, str(e)[:80])
+        probs = []
+        for inst in reach(top.reference, []):
+            if not inst.reference.is_leaf() and len(inst.reference.references) != 1:
+                probs.append("hierarchical instance %r reachable from the top shares its definition %r with %d other instance(s)" % (
+                    inst.name, inst.reference.name, len(inst.reference.references) - 1))
+        if elab(top.reference) != before:
+            probs.append("the elaborated tree / leaf types changed")
+        for o in objs.values():
+            if id(o) in outside and o.reference is not outside[id(o)]:
+                probs.append("an instance outside the top hierarchy was re-pointed")
+        names = [d.name for l in netlist.libraries for d in l.definitions]
+        if len(set(names)) != len(names):
+            probs.append("definition names are not unique: %s" % names)
+        allobjs = wellformed.closure([netlist] + list(objs.values()))
+        probs += wellformed.c01_problems(allobjs)[:2] + wellformed.c02_problems(allobjs)[:2]
+        snap = [(d, tuple(d.children), tuple(c.reference for c in d.children)) for l in netlist.libraries for d in l.definitions]
+        uniquify(netlist)
+        snap2 = [(d, tuple(d.children), tuple(c.reference for c in d.children)) for l in netlist.libraries for d in l.definitions]
+        if snap != snap2:
+            probs.append("a second uniquify changed the netlist again")
+        return bool(probs), "; ".join(probs[:3]) or "uniquify satisfied the statement on this netlist"
+
+
+def redo_connections_bus_job(tier, timeout_ms=300000):
+    """flatten._redo_connections(instance, port) for a TWO-pin port whose bits are independent (distinct inner
+    nets, distinct outer nets, any of them absent): each bit is merged on its own -- bit 1 is handled whatever
+    happened for bit 0 (connected, unconnected inside, unconnected outside)."""
+    import spydrnet.flatten as fl
+    t0 = time.time()
+    name = "C09/flatten._redo_connections{two-pin-port}"
+    u = Universe(dict(Netlist=0, Library=0, Definition=2, Port=1, Cable=2, Wire=4, Instance=2, InnerPin=2, OuterPin=4),
+                 {}, 3)
+    shape = {("Definition", 1, "_ports"): [0], ("Port", 0, "_pins"): [0, 1],
+             ("Definition", 0, "_cables"): [0], ("Cable", 0, "_wires"): [0, 1],
+             ("Definition", 1, "_cables"): [1], ("Cable", 1, "_wires"): [2, 3],
+             ("Definition", 0, "_children"): [0], ("Definition", 1, "_children"): [1]}
+    pre = Heap.symbolic(u).apply_shape(shape)
+    heap = pre.copy()
+    ctx = Ctx(heap, M.REAL)
+    M.listeners_none(ctx)
+    fr = Frame(None, True, {})
+    inst = Ref(u.gid("Instance", 0), ("Instance",))
+    port = Ref(u.gid("Port", 0), ("Port",))
+    A = pre.type_constraints() + spec.inv_all(pre)
+    A += [EQ(pre.sc[("Instance", "_reference")][0], u.gid("Definition", 1))]
+    op_of = lambda i, p: pre.pinmap[i][p]
+    # nets are local: parent wires 0,1 join only outer pins of instance 0; cell wires 2,3 join the cell's inner
+    # pins and outer pins of its child
+    for w in (0, 1):
+        l, e = pre.ls[("Wire", "_pins")][w]
+        for k in range(len(e)):
+            A.append(IMPLIES(LT(k, l), OR(*[EQ(e[k], op_of(0, p)) for p in range(2)])))
+    for w in (2, 3):
+        l, e = pre.ls[("Wire", "_pins")][w]
+        for k in range(len(e)):
+            A.append(IMPLIES(LT(k, l), OR(EQ(e[k], u.gid("InnerPin", 0)), EQ(e[k], u.gid("InnerPin", 1)),
+                                          *[AND(EQ(e[k], op_of(1, p)), NE(op_of(1, p), NONE_ID)) for p in range(2)])))
+    iw = [pre.sc[("InnerPin", "_wire")][j] for j in range(2)]
+    opin = [pre.pinmap[0][j] for j in range(2)]
+    ow = [ite_chain(opin[j], u.ids("OuterPin"), pre.sc[("OuterPin", "_wire")], NONE_ID) for j in range(2)]
+    # independent bits
+    A += [OR(EQ(iw[0], NONE_ID), NE(iw[0], iw[1])), OR(EQ(ow[0], NONE_ID), NE(ow[0], ow[1]))]
+    A = [B(a) for a in A if a is not True]
+    try:
+        call_function(ctx, fr, fl._redo_connections, [inst, port])
+    except Unsupported as e:
+        return [result(name, INCONCLUSIVE, "E1/symheap", detail="Unsupported: %s" % e, wall_s=time.time() - t0)]
+    post = heap
+    merged, kept, boundary = [], [], []
+    for c in ("InnerPin", "OuterPin"):
+        for k in range(u.live[c]):
+            g = u.gid(c, k)
+            was, now = pre.sc[(c, "_wire")][k], post.sc[(c, "_wire")][k]
+            is_b = OR(*[OR(EQ(g, u.gid("InnerPin", j)), EQ(g, opin[j])) for j in range(2)])
+            st = True if c == "InnerPin" else spec.stored(pre, k)
+            boundary.append(IMPLIES(is_b, EQ(now, NONE_ID)))
+            on_any = False
+            for j in range(2):
+                on_j = AND(NOT(is_b), st, NE(iw[j], NONE_ID), EQ(was, iw[j]))
+                merged.append(IMPLIES(AND(on_j, NE(ow[j], NONE_ID)), EQ(now, ow[j])))
+                kept.append(IMPLIES(AND(on_j, EQ(ow[j], NONE_ID)), EQ(now, iw[j])))
+                on_any = OR(on_any, AND(NE(iw[j], NONE_ID), EQ(was, iw[j])))
+            kept.append(IMPLIES(AND(NOT(is_b), st, NOT(on_any)), EQ(now, was)))
+    goals = {"each-bit's-inner-net-joins-that-bit's-outer-net": merged,
+             "unconnected-side-leaves-the-other-net-intact-and-nothing-else-moves": kept,
+             "boundary-pins-of-every-bit-are-disconnected": boundary,
+             "well-formed-afterwards": [c for g, cs in spec.inv_groups(post).items() for c in cs
+                                        if g.split(":")[0] in ("I1", "I2", "types")]}
+    funcs = sorted(fn_ident(f) for f in ctx.funcs_seen)
+    bounds = dict(u.describe(), shape={"%s/%d/%s" % k: v for k, v in shape.items()},
+                  note="one two-pin port; bits on distinct inner and distinct outer nets (or unconnected)")
+    ok = [B(NOT(ctx.bound)), B(NOT(ctx.exc))]
+    tw = {"pre_sat": M.check(A, True, 60000)[0], "returns": M.check(A, AND(NOT(ctx.exc), NOT(ctx.bound)), 120000)[0],
+          "bit0-open-outside-bit1-connected": M.check(A + ok, AND(EQ(ow[0], NONE_ID), NE(ow[1], NONE_ID), NE(iw[1], NONE_ID)), 120000)[0]}
+    if any(v != "sat" for v in tw.values()):
+        return [result(name, VACUOUS, "E1/symheap", twins=tw, bounds=bounds, detail="reachability twin failed: %s %s" % (
+            tw, sorted(set(ctx.bound_why))[:3]))]
+    out = []
+    for g, cs in list(goals.items()) + [("never-raises", None)]:
+        oname = name + "/" + g
+        if cs is None:
+            st, dt, mdl = M.check(A + [B(NOT(ctx.bound))], ctx.exc, timeout_ms)
+        else:
+            st, dt, mdl = M.check(A + ok, NOT(AND(*cs)), timeout_ms)
+        if st == "unsat":
+            out.append(result(oname, DISCHARGED, "E1/symheap", queries=1, solver_s=dt, twins=tw, bounds=bounds,
+                              functions=funcs, detail="unsat", wall_s=time.time() - t0, paths=1))
+        elif st != "sat":
+            out.append(result(oname, INCONCLUSIVE, "E1/symheap", detail="solver: %s" % st, bounds=bounds))
+        else:
+            state = replay.heap_to_state(pre, mdl)
+            rp = {"engine": "E1", "property": "C09", "obligation": oname, "kind": "redo_connections_bus", "state": state,
+                  "instance": u.gid("Instance", 0), "port": u.gid("Port", 0)}
+            try:
+                viol, txt = replay_redo_bus(rp)
+            except Exception:
+                viol, txt = False, "replay crashed: " + traceback.format_exc()[-400:]
+            out.append(result(oname, VIOLATED if viol else ERROR, "E1/symheap", queries=1, solver_s=dt, twins=tw,
+                              bounds=bounds, functions=funcs, replay=rp if viol else None,
+                              detail=txt if viol else "counterexample did not reproduce: " + txt,
+                              wall_s=time.time() - t0))
+    return out
+
+
+def replay_redo_bus(rp):
+    from spydrnet.flatten import _redo_connections
+    from vf.e1 import wellformed
+    with replay.listener_config("none"):
+        objs = replay.build(rp["state"])
+        built, _ = replay.abstract(objs)
+        diffs = replay.states_equal(rp["state"], built)
+        if diffs:
+            return False, "built state differs from the model: " + "; ".join(diffs[:3])
+        inst, port = objs[rp["instance"]], objs[rp["port"]]
+        bits = []
+        for pin in port.pins:
+            opin = inst.pins[pin]
+            iw, ow = pin.wire, opin.wire
+            bits.append((pin, opin, iw, ow, [p for p in (iw.pins if iw is not None else []) if p is not pin],
+                         [p for p in (ow.pins if ow is not None else []) if p is not opin]))
+        try:
+            _redo_connections(inst, port)
+        except Exception as e:
+            return True, "_redo_connections raised %s: %s" % (type(e).__name__, str(e)[:80])
+        probs = []
+        for j, (pin, opin, iw, ow, inner_others, outer_others) in enumerate(bits):
+            if pin.wire is not None or opin.wire is not None:
+                probs.append("bit %d: a boundary pin is still connected" % j)
+            for p in inner_others:
+                want = ow if ow is not None else iw
+                if p.wire is not want:
+                    probs.append("bit %d: a %s of the inner net is not on the %s net afterwards" % (
+                        j, type(p).__name__, "outer" if ow is not None else "inner"))
+            for p in outer_others:
+                if p.wire is not ow:
+                    probs.append("bit %d: a pin of the outer net moved" % j)
+        probs += wellformed.c01_problems(wellformed.closure(list(objs.values())))
+        return bool(probs), "_redo_connections: %s" % sorted(set(probs))[:4]
